@@ -542,6 +542,10 @@ def compare(acc, case, base, new, T, viol, stats):
             tol = extra.get('tol_shift', tol)
         d = num_diff(vn, exp, tol, period=extra.get('period'), scale=scale)
         stats['values_compared'] += int(np.size(vb))
+        if vb.dtype.kind == 'f' and np.shape(vb) == np.shape(vn):
+            # "no result" in both runs (fully masked / negative-flux rows, failed fits): agreement on NaN is
+            # demanded, but such values say nothing about registration -- counted so the evidence shows how many
+            stats['values_nan_in_both_runs'] += int(np.sum(np.isnan(vb) & np.isnan(np.asarray(vn, float))))
         if kind in ('x', 'y', 'xy', 'yx'):
             stats['position_values_compared'] += int(np.size(vb))
         if CALIB is not None and '_last' in CALIB:
